@@ -233,7 +233,7 @@ CLAIMS["C09"] = dict(
         "token sequence of the full rendering (Meta/PrintToks.v, using Grammar/Printer.v's own space-based layout "
         "decisions) returns exactly rt_grammar g = g plus the parentheses/brackets the printer adds, and strip_rules "
         "(redundant parentheses removed) is unchanged; hypotheses are decidable (Meta/Shape.v) and an Example using every "
-        "operator satisfies them. Ties, re-checked every run by evaluation inside Coq: reference reader = shipped "
+        "operator satisfies them; C09_reference_reader_total: the reference reader never runs out of fuel on ANY token sequence, so its Fail is a rejection by the rules. Ties, re-checked every run by evaluation inside Coq: reference reader = shipped "
         "GrammarParser on every explored text and on its rendering (structure incl. names, types, actions, memo, metas); "
         "token printer = real tokens of the real str(); inside the hypotheses the implementation's re-read grammar = "
         "rt_grammar; K-read: the runtime+generator+MiniPy models running metagrammar.gram's IR build the same grammar "
